@@ -32,26 +32,45 @@ static void dump(zckCtx *zck) {
     printf("\n");
 }
 
+static void open_bytes(const unsigned char *raw, size_t n, const char *pt, const char *pd, const char *ps) {
+    int fd = zh_memfd(raw, n);
+    zckCtx *zck = zck_create();
+    int ok = zck_init_adv_read(zck, fd);
+    if(ok && strcmp(pt, "-")) ok = zck_set_ioption(zck, ZCK_VAL_HEADER_HASH_TYPE, atol(pt));
+    if(ok && strcmp(pd, "-")) ok = zck_set_soption(zck, ZCK_VAL_HEADER_DIGEST, pd, strlen(pd));
+    if(ok && strcmp(ps, "-")) ok = zck_set_ioption(zck, ZCK_VAL_HEADER_LENGTH, atol(ps));
+    if(!ok) printf("BADPIN\n");
+    else if(zck_read_lead(zck) && zck_read_header(zck)) dump(zck);
+    else printf("ERR\n");
+    zck_free(&zck);
+    close(fd);
+}
+
 int main(void) {
     zck_set_log_level(ZCK_LOG_NONE);
+    zh_apply_limits();
     char *line;
+    unsigned char *base = NULL; size_t base_n = 0;
     while((line = zh_readline(stdin))) {
         char pt[32], ps[32];
         char *pd = malloc(strlen(line) + 1), *hex = malloc(strlen(line) + 1);
+        unsigned long pos; unsigned int val;
         if(sscanf(line, "O %31s %s %31s %s", pt, pd, ps, hex) == 4) {
             size_t n; unsigned char *raw = zh_unhex(hex, &n);
-            int fd = zh_memfd(raw, n);
+            open_bytes(raw, n, pt, pd, ps);
             free(raw);
-            zckCtx *zck = zck_create();
-            int ok = zck_init_adv_read(zck, fd);
-            if(ok && strcmp(pt, "-")) ok = zck_set_ioption(zck, ZCK_VAL_HEADER_HASH_TYPE, atol(pt));
-            if(ok && strcmp(pd, "-")) ok = zck_set_soption(zck, ZCK_VAL_HEADER_DIGEST, pd, strlen(pd));
-            if(ok && strcmp(ps, "-")) ok = zck_set_ioption(zck, ZCK_VAL_HEADER_LENGTH, atol(ps));
-            if(!ok) printf("BADPIN\n");
-            else if(zck_read_lead(zck) && zck_read_header(zck)) dump(zck);
-            else printf("ERR\n");
-            zck_free(&zck);
-            close(fd);
+        } else if(sscanf(line, "B %s", hex) == 1) {
+            free(base); base = zh_unhex(hex, &base_n); printf("BASE\n");
+        } else if(sscanf(line, "m %lu %u", &pos, &val) == 2 && base) {
+            unsigned char *b = malloc(base_n + 1); memcpy(b, base, base_n); b[pos] = (unsigned char)val;
+            open_bytes(b, base_n, "-", "-", "-"); free(b);
+        } else if(sscanf(line, "i %lu %u", &pos, &val) == 2 && base) {
+            unsigned char *b = malloc(base_n + 2); memcpy(b, base, pos); b[pos] = (unsigned char)val;
+            memcpy(b + pos + 1, base + pos, base_n - pos);
+            open_bytes(b, base_n + 1, "-", "-", "-"); free(b);
+        } else if(sscanf(line, "x %lu", &pos) == 1 && base) {
+            unsigned char *b = malloc(base_n + 1); memcpy(b, base, pos); memcpy(b + pos, base + pos + 1, base_n - pos - 1);
+            open_bytes(b, base_n - 1, "-", "-", "-"); free(b);
         } else printf("BADCASE\n");
         free(pd); free(hex);
         fflush(stdout);
